@@ -128,6 +128,12 @@ def numpy_axes(ctx):
             n += 1
             ax = 'IL' if U(a.targets[0]) == 'self.ilines' else 'XL'
             grid = 'INLINE_3D' if 'INLINE_3D' in U(a.value.value) else 'CROSSLINE_3D' if 'CROSSLINE_3D' in U(a.value.value) else '?'
+            if grid == '?' and isinstance(a.value.value, ast.Subscript):
+                from .. import tables as TB_
+                code = TB_.tracefield_code(ctx.P, f, a.value.value.slice)
+                if code is None:
+                    raise AnalysisError('NumpyConverter.__init__: header word `%s` of the axis grid is not recognised' % U(a.value.value.slice))
+                grid = {189: 'INLINE_3D', 193: 'CROSSLINE_3D'}.get(code, 'header word %d' % code)
             e0, e1 = a.value.slice.elts
             runs = 0 if isinstance(e0, ast.Slice) and not isinstance(e1, ast.Slice) else \
                 1 if isinstance(e1, ast.Slice) and not isinstance(e0, ast.Slice) else None
